@@ -32,11 +32,19 @@ def finding_matches(f, prop, cls, msg):
     return True
 
 
+def _relabel_overflow(r):
+    """a crash whose innermost repository frame is smt::rational arithmetic itself (division by zero after overflow,
+    inf*0 assertion after a coefficient wrapped to 0) is machine overflow: outside every property's range."""
+    if r.status != "CRASH":
+        return
+    repo_frames = [x for x in r.crash if re.search(r"/lib(smt|json|riddle|core|solver|executor|concurrent)\.so\(", x)]
+    if repo_frames and ("_ZNK3smt8rational" in repo_frames[0] or "_ZN3smt8rational" in repo_frames[0]):
+        r.status = "OVERFLOW"
+
+
 def is_failure(r):
-    if r.status == "CRASH" and (r.sig == 8 or any("signal=8" in x for x in r.crash)) and any("rational" in x for x in r.crash):
-        r.status = "OVERFLOW"  # machine overflow inside smt::rational (e.g. unbounded recursion halving a value): outside every property's range
-        return False
-    return r.status in ("VIOL", "CRASH") or (r.status == "TIMEOUT" and r.cmd and r.cmd[1].get("timeout_is_violation"))
+    _relabel_overflow(r)
+    return r.status in ("VIOL", "CRASH")
 
 
 def crash_class(r):
@@ -54,6 +62,7 @@ def crash_class(r):
 
 
 def result_class(r):
+    _relabel_overflow(r)
     if r.status == "VIOL":
         return r.cls
     if r.status == "CRASH":
